@@ -78,3 +78,19 @@ Definition child_log (i : nat) (s : mstate) : list ev :=
 (* Capabilities() of the multi reporter from the children's (reporting, tagging) *)
 Definition caps (cs : list (bool * bool)) : bool * bool :=
   (forallb fst cs, forallb snd cs).
+
+(* A multi reporter is itself a reporter: children may be multi reporters again.  [deliver t i c]
+   is the sequence of leaf calls (leaf number, call) when c is reported on the tree t whose
+   leaves are numbered from i, left to right. *)
+Inductive rtree := Leaf | Node (ks : list rtree).
+Fixpoint leaves (t : rtree) : nat :=
+  match t with
+  | Leaf => 1
+  | Node ks => (fix go (ks : list rtree) : nat := match ks with [] => 0 | k :: r => leaves k + go r end)%nat ks
+  end.
+Fixpoint deliver (t : rtree) (i : nat) (c : ev) : list (nat * ev) :=
+  match t with
+  | Leaf => [(i, c)]
+  | Node ks => (fix go (ks : list rtree) (i : nat) : list (nat * ev) :=
+                  match ks with [] => [] | k :: r => deliver k i c ++ go r (i + leaves k)%nat end) ks i
+  end.
